@@ -588,9 +588,19 @@ func c14GenCases(state string, seed uint64, thorough bool) []c14Case {
 	if state == "complete-live" {
 		singles = append(singles, singles...) // each insider bundle twice (fresh random content each time)
 	}
-	if !thorough && len(wedgy) > 2 {
+	// every request that wedges the Process costs one watchdog period: a bounded, seeded choice of the Dkg-variant
+	// shapes per state (2 quick / 6 thorough as single requests, thorough also 6 inside sequences)
+	nW := 2
+	if thorough {
+		nW = 6
+	}
+	if len(wedgy) > nW {
 		p := rng.Perm(len(wedgy))
-		wedgy = []string{wedgy[p[0]], wedgy[p[1]]}
+		var pick []string
+		for _, i := range p[:nW] {
+			pick = append(pick, wedgy[i])
+		}
+		wedgy = pick
 	}
 	var cases []c14Case
 	add := func(ks ...string) {
@@ -602,9 +612,6 @@ func c14GenCases(state string, seed uint64, thorough bool) []c14Case {
 	nSeq := 40
 	if thorough {
 		nSeq = 400
-		if state != "complete-live" {
-			pool = append(pool, wedgy...)
-		}
 	}
 	if state == "complete-live" {
 		nSeq /= 4
@@ -616,6 +623,17 @@ func c14GenCases(state string, seed uint64, thorough bool) []c14Case {
 			ks = append(ks, pool[rng.Intn(len(pool))])
 		}
 		add(ks...)
+	}
+	if thorough && state != "complete-live" {
+		for _, wk := range wedgy {
+			n := 2 + rng.Intn(4)
+			var ks []string
+			for j := 0; j < n; j++ {
+				ks = append(ks, pool[rng.Intn(len(pool))])
+			}
+			ks[rng.Intn(n)] = wk
+			add(ks...)
+		}
 	}
 	// wedgy singles last: on a live victim a wedge ends the scenario
 	for _, k := range wedgy {
@@ -702,15 +720,17 @@ func c14FindParked(dump string) (summary, excerpt string, found bool) {
 		}
 		isProbe := strings.Contains(b, "c14DoProbe")
 		isHostile := strings.Contains(b, "c14DoHostile")
-		nProc := 0
-		for _, f := range frames {
-			if strings.HasPrefix(f, "Process.") && !strings.Contains(f, ".func") {
-				nProc++
+		// Packet, Command and Close hold the process lock from entry to return: a goroutine that waits for that lock
+		// in a frame above one of them waits for itself
+		holdsBelow := false
+		for _, f := range frames[1:] {
+			if f == "Process.Packet" || f == "Process.Command" || f == "Process.Close" {
+				holdsBelow = true
 			}
 		}
 		c := &cand{exc: b}
 		switch {
-		case lockFromProcess && nProc >= 2 && !isProbe:
+		case lockFromProcess && holdsBelow && !isProbe:
 			c.score, c.sum = 4, "self-deadlock:"+strings.Join(frames, "<-")
 		case isHostile:
 			c.score, c.sum = 3, "request-parked:"+strings.Join(frames, "<-")
@@ -1195,7 +1215,12 @@ func c14Absorb(run *vfRun, state, path string) (done bool, lastCase int) {
 			}
 			if ch, _ := r["answer_changed"].(bool); ch {
 				run.Count("probe_answer_changed", 1)
-				run.Seen("probe_answer_changes", state+"|"+str("probe")+"|"+str("answer"))
+				k := state + "|" + str("probe") + "|" + str("answer")
+				run.Seen("probe_answer_changes", k)
+				if !c14Noted[k] {
+					c14Noted[k] = true
+					run.Note("probe answer differs from the baseline taken before the hostile requests (legitimate when the real DKG moved on): " + k)
+				}
 			}
 			if str("out") == "panic" {
 				run.Count("contained_panics_in_probe", 1)
